@@ -10,6 +10,7 @@ import (
 	"net/url"
 	"os"
 	"path/filepath"
+	"sort"
 	"strconv"
 	"strings"
 	"time"
@@ -253,7 +254,9 @@ func c09Cases(c runCfg) ([]*scratch.Pkg, []string, map[string]interface{}) {
 			lines = append(lines, calls...)
 		}
 	}
-	return pkgs, lines, map[string]interface{}{"operations": nops, "calls": ncall, "request_bodies": bodyKinds}
+	ue := c09UrlLines(rand.New(rand.NewSource(c.Seed+77)), c.Thorough)
+	lines = append(lines, ue...)
+	return pkgs, lines, map[string]interface{}{"operations": nops, "calls": ncall, "request_bodies": bodyKinds, "url_escape_cases": len(ue)}
 }
 
 var rawBodies = []string{"x", "\x00\x01\xff binary", "{\"not\":\"parsed\"}", strings.Repeat("long ", 300)}
@@ -380,6 +383,8 @@ func runC09(c runCfg) error {
 			}
 			send = append(send, f[1]+" CALL "+name+" "+val)
 			idx = append(idx, i)
+		case "UE":
+			impl[i] = c09UrlImpl(f)
 		default:
 			impl[i] = "SKIP"
 		}
@@ -404,6 +409,118 @@ func runC09(c runCfg) error {
 		impl[i] = out + " valid=" + verdict
 	}
 	return writeFam(c, &famResult{Cases: lines, Impl: impl, Pkgs: pkgs}, meta)
+}
+
+// c09UrlImpl: what net/url itself does, for the UE lines (Model/UrlEscape.v is a transcription of it)
+func c09UrlImpl(f []string) string {
+	if len(f) != 3 {
+		return "impl=ERROR:args"
+	}
+	pairs := func(a string) [][2]string {
+		var out [][2]string
+		if a == "-" {
+			return nil
+		}
+		for _, kv := range strings.Split(a, ",") {
+			p := strings.SplitN(kv, ":", 2)
+			out = append(out, [2]string{dialect.UnHx(p[0]), dialect.UnHx(p[1])})
+		}
+		return out
+	}
+	grouped := func(v url.Values) string {
+		keys := make([]string, 0, len(v))
+		for k := range v {
+			keys = append(keys, k)
+		}
+		sort.Strings(keys)
+		var out []string
+		for _, k := range keys {
+			for _, x := range v[k] {
+				out = append(out, dialect.Hx(k)+":"+dialect.Hx(x))
+			}
+		}
+		if len(out) == 0 {
+			return "-"
+		}
+		return strings.Join(out, ",")
+	}
+	switch f[1] {
+	case "pe":
+		return "impl=" + dialect.Hx(url.PathEscape(dialect.UnHx(f[2])))
+	case "qe":
+		return "impl=" + dialect.Hx(url.QueryEscape(dialect.UnHx(f[2])))
+	case "pu":
+		// what the server does with the raw path of the request line: URL.Path of the parsed request URI
+		raw := dialect.UnHx(f[2])
+		s, err := url.PathUnescape(raw)
+		if err != nil {
+			return "impl=ERR"
+		}
+		return "impl=ok:" + dialect.Hx(s)
+	case "qu":
+		s, err := url.QueryUnescape(dialect.UnHx(f[2]))
+		if err != nil {
+			return "impl=ERR"
+		}
+		return "impl=ok:" + dialect.Hx(s)
+	case "ve":
+		v := url.Values{}
+		for _, p := range pairs(f[2]) {
+			v.Add(p[0], p[1])
+		}
+		return "impl=" + dialect.Hx(v.Encode())
+	case "pq":
+		u := &url.URL{RawQuery: dialect.UnHx(f[2])}
+		return "impl=" + grouped(u.Query())
+	case "rt":
+		v := url.Values{}
+		for _, p := range pairs(f[2]) {
+			v.Add(p[0], p[1])
+		}
+		u := &url.URL{RawQuery: v.Encode()}
+		return "impl=" + grouped(u.Query())
+	}
+	return "impl=ERROR:mode"
+}
+
+// c09UrlLines: byte strings for the escaping functions (every byte class: unreserved, sub-delims, '%', '+', space, controls, >= 0x80),
+// malformed escapes for the unescapers, raw query strings with empty pieces, ';', '=' in odd places, and pair lists for Encode/Query()
+func c09UrlLines(rng *rand.Rand, thorough bool) []string {
+	n := 600
+	if thorough {
+		n = 12000
+	}
+	var out []string
+	// every single byte, and every byte after a '%'
+	for b := 0; b < 256; b++ {
+		s := string([]byte{byte(b)})
+		out = append(out, "UE pe "+dialect.Hx(s), "UE qe "+dialect.Hx(s), "UE pu "+dialect.Hx(s), "UE qu "+dialect.Hx(s),
+			"UE pu "+dialect.Hx("%"+s+"0"), "UE qu "+dialect.Hx("%4"+s), "UE pq "+dialect.Hx("a"+s+"b=c"+s+"d"))
+	}
+	atoms := []string{"a", "Z", "0", "-", "_", ".", "~", "$", "&", "+", ",", "/", ":", ";", "=", "?", "@", "%", " ", "#", "\"", "<", "\x00", "\n", "\xc3\xa9", "\xff", "%2F", "%zz", "%4", "%", "%41", "+", "&&", "=="}
+	text := func(k int) string {
+		var b strings.Builder
+		for i := 0; i < k; i++ {
+			b.WriteString(atoms[rng.Intn(len(atoms))])
+		}
+		return b.String()
+	}
+	for i := 0; i < n; i++ {
+		s := text(rng.Intn(7))
+		out = append(out, "UE pe "+dialect.Hx(s), "UE qe "+dialect.Hx(s), "UE pu "+dialect.Hx(s), "UE qu "+dialect.Hx(s), "UE pq "+dialect.Hx(s))
+		k := rng.Intn(5)
+		var ps []string
+		for j := 0; j < k; j++ {
+			key := []string{"q", "tag", "a b", "", "é", "k=1", "z&", "q"}[rng.Intn(8)]
+			ps = append(ps, dialect.Hx(key)+":"+dialect.Hx(text(rng.Intn(4))))
+		}
+		a := "-"
+		if len(ps) > 0 {
+			a = strings.Join(ps, ",")
+		}
+		out = append(out, "UE ve "+a, "UE rt "+a)
+	}
+	return out
 }
 
 func validateWire(router *openapi3filter.Router, method, rawurl, headers, body string) (verdict string) {
